@@ -161,7 +161,10 @@ func c06GenTable(rng *rand.Rand) (table []c06Entry) {
 		if !sl.cname {
 			continue
 		}
-		for try := 0; try < 4; try++ {
+		// A wildcard CNAME into its own pattern is an unspecified zone for
+		// every name below the pattern; keep some, not most.
+		allowOwn := rng.Intn(100) < 10
+		for try := 0; ; try++ {
 			switch w := rng.Intn(100); {
 			case w < 40 && len(valued) > 0:
 				sl.ans = valued[rng.Intn(len(valued))]
@@ -172,9 +175,12 @@ func c06GenTable(rng *rand.Rand) (table []c06Entry) {
 			default:
 				sl.ans = c06External[rng.Intn(len(c06External))]
 			}
-			// A wildcard CNAME into its own pattern is an unspecified zone;
-			// keep some, not most.
-			if !(c06IsWild(sl.pat) && c06Match(sl.pat, sl.ans)) || rng.Intn(100) < 12 {
+			if allowOwn || !(c06IsWild(sl.pat) && c06Match(sl.pat, sl.ans)) {
+				break
+			}
+			if try == 5 {
+				sl.ans = c06External[rng.Intn(len(c06External))]
+
 				break
 			}
 		}
@@ -493,7 +499,7 @@ func TestVerifC06Table(t *testing.T) {
 					continue
 				}
 				if bad, why := c06Sound(table, q.name, q.qt, o); bad != "" {
-					rep.Violate("unsound-address:"+why+":"+exp.Class,
+					rep.Violate("unsound-address:"+why+":"+o.shape(),
 						fmt.Sprintf("address %s returned for %s %s is not a value of an entry matching the final name for that family",
 							bad, q.name, dns.TypeToString[q.qt]), wit(k))
 					reported = true
